@@ -26,6 +26,14 @@ FORMS = [
     ('ext-sized (@name)', '<member name="n" type="u16"/><member name="a" type="{t}"><dimension variableSizeFieldName="@n"/></member><member name="z" type="u8"/>',
      'u16 n; {t} a<@n>; u8 z;'),
     ('optional', '<member name="a" type="{t}" optional="true"/><member name="z" type="u8"/>', '{t}* a; u8 z;'),
+    # inside a <message> the limit of a variable-size array is dropped (a dynamic array), wherever the member stands
+    ('message: variable-size array, not last', '<member name="a" type="{t}"><dimension isVariableSize="true" size="3"/></member><member name="z" type="u8"/>',
+     'u32 a_len; {t} a<@a_len>; u8 z;', 'message'),
+    ('message: variable-size array, last', '<member name="z" type="u8"/><member name="a" type="{t}"><dimension isVariableSize="true" size="3"/></member>',
+     'u8 z; u32 a_len; {t} a<@a_len>;', 'message'),
+    ('message: two variable-size arrays', '<member name="a" type="{t}"><dimension isVariableSize="true" size="3" variableSizeFieldType="u16"/></member>'
+                                          '<member name="b" type="u8"><dimension isVariableSize="true" size="2"/></member>',
+     'u16 a_len; {t} a<@a_len>; u32 b_len; u8 b<@b_len>;', 'message'),
 ]
 
 
@@ -88,12 +96,14 @@ def run(prop, seed, tier):
     elem_types = ['u8', 'u16', 'u64', 'i32', 'F16', 'EN', 'TU16', 'UU']
     with lib.Scratch() as sc:
         n = 0
-        for label, xml, text in FORMS:
+        for form in FORMS:
+            label, xml, text = form[:3]
+            tag = form[3] if len(form) > 3 else 'struct'
             for t in elem_types:
                 if label == 'optional' and t in ():
                     continue
                 n += 1
-                doc = '<xml>%s<struct name="X">%s</struct></xml>' % (helper_xml, xml.format(t=t))
+                doc = '<xml>%s<%s name="X">%s</%s></xml>' % (helper_xml, tag, xml.format(t=t), tag)
                 src = sc.write('f%d.xml' % n, doc)
                 out = sc.path('o%d' % n)
                 os.makedirs(out)
